@@ -42,10 +42,10 @@ def shape(rng, d, ctx):
         elif r < 0.93 and (ctx['tryb'] or ctx['flavor'] == 'defeat'):
             out.append(rng.choice(['!is_defeat();', 'preempt { %s }' % shape(rng, d - 1, ctx), '!truth_is_defeat(x > 5);', '!truth_is_defeat(false);',
                                    '!truth_is_defeat(1 > 2);', '!truth_is_defeat(true);', '!truth_is_defeat(not true);']))
-        elif r < 0.96: out.append(rng.choice(['all_is_win();', 'all_is_broken();']))
-        elif r < 0.985:
+        elif r < 0.95: out.append(rng.choice(['all_is_win();', 'all_is_broken();']))
+        elif r < 0.99:
             # user functions that share a *name* with a terminal / defeat builtin but not its flavour: ordinary calls that return
-            c = ['is_defeat();', 'truth_is_defeat(x > 0);']
+            c = ['is_defeat();', 'truth_is_defeat(x > 0);', 'all_is_win(x);', 'all_is_broken("m", false);', 'all_is_broken(x > 1);']
             if ctx['flavor'] == 'you' and not ctx['tryb']: c += ['@all_is_win();', '@all_is_broken();', '@is_defeat();', '@truth_is_defeat(true);']
             if ctx['tryb'] or ctx['flavor'] == 'defeat': c += ['!all_is_win();', '!all_is_broken();']
             out.append(rng.choice(c))
@@ -61,7 +61,9 @@ def program(rng):
     call = {'ordinary': 'f(2);', 'you': '@f(2);', 'defeat': 'try { !f(2); } undo { write("u"); }'}[fl]
     look = ('empty @all_is_win() { write(\'w\'); }\nempty !all_is_win() { write(\'W\'); }\nempty @all_is_broken() { write(\'b\'); }\n'
             'empty !all_is_broken() { write(\'B\'); }\nempty is_defeat() { write(\'d\'); }\nempty @is_defeat() { write(\'D\'); }\n'
-            'empty truth_is_defeat(bool t) { write(t); }\nempty @truth_is_defeat(bool t) { write(t); }\n')
+            'empty truth_is_defeat(bool t) { write(t); }\nempty @truth_is_defeat(bool t) { write(t); }\n'
+            # ordinary overloads of the terminal builtins that take parameters - and return
+            'empty all_is_win(int q) { write(\'q\'); }\nempty all_is_broken(string m, bool f) { write(m); }\nempty all_is_broken(bool f) { write(f); }\n')
     return look + '%s %s(int x) { %s }\nempty @is_you() { %s write("end"); }' % ('int' if ret else 'empty', name, body, call)
 
 
